@@ -153,7 +153,7 @@ theorem probeM_Yentry (P : Net L K) (pid : String) (a : L)
 
 theorem probeM_ids (P : Net L K) (pid : String) (a : L) :
     (probeM P pid a).ids = P.ids ++ [pid] := by
-  simp [Net.ids, probeM_branches, zs_ids, probeBranch]
+  simp [Net.ids, probeM_branches, port_zs_ids, probeBranch]
 
 theorem probeM_ids_nodup (P : Net L K) (pid : String) (a : L) (hids : P.ids.Nodup) (hp : pid ∉ P.ids) :
     (probeM P pid a).ids.Nodup := by
@@ -329,11 +329,11 @@ theorem probe_flip (N : Net L K) (pid : String) (hp : pid ∉ N.ids) (a b : L) (
 
 theorem probe_move (M : Net L K) (pid : String) (a b g : L) (R : Report L K)
     (hR : CircuitEqs (probeNet M pid a b 1) R) :
-    CircuitEqs (probeNet { M with zero := g } pid a b 1) (R.shift (R.pot g)) := by
+    CircuitEqs (probeNet { M with zero := g } pid a b 1) (R.portShift (R.pot g)) := by
   obtain ⟨h1, e1, e2⟩ := (probe_iff M pid a b 1 R).mp hR
   rw [probe_iff]
   refine ⟨eqsInj_shift g h1, e1, ?_⟩
-  simp only [Report.shift]; rw [e2]; ring
+  simp only [Report.portShift]; rw [e2]; ring
 
 theorem diagAt_ok {Z : List (List K)} {i : Nat} {z : K} (h : diagAt Z i = .ok z) :
     (Z.getD i []).getD i 0 = z := by
